@@ -137,3 +137,23 @@ Definition spec_serve (T : table) (nf na : bool) (m p : string) : response :=
       end
     end
   end.
+
+(* ---- what a response must be, in terms of the route list only (Prop level) *)
+Definition no_own (T : table) (m : string) (segs : list string) : Prop :=
+  forall t, In t T -> tm t = m -> ~ matches (tpat t) segs.
+
+(* what a response must be, in terms of the route list only *)
+Definition resp_ok (T : table) (nf na : bool) (m : string) (segs : list string) (resp : response) : Prop :=
+  match resp with
+  | RHandler h ps => exists t, is_best T m segs t /\ th t = h /\ ps = binds (tpat t) segs
+  | RNotAllowed allow =>
+    na = false /\ no_own T m segs /\ allow <> [] /\ NoDup allow /\
+    forall m', In m' allow <-> (m' <> m /\ exists t, In t T /\ tm t = m' /\ matches (tpat t) segs)
+  | RNotAllowedCustom =>
+    na = true /\ no_own T m segs /\ exists t, In t T /\ tm t <> m /\ matches (tpat t) segs
+  | RNotFound => nf = false /\ forall t, In t T -> ~ matches (tpat t) segs
+  | RNotFoundCustom => nf = true /\ forall t, In t T -> ~ matches (tpat t) segs
+  end.
+
+(* the router after a list of Handle calls on NewRouter() *)
+Definition router_of (nf na : bool) (regs : list reg) : router := build (new_router nf na) regs.
